@@ -21,7 +21,7 @@ ASSUMPTIONS = ['BLAS/OpenMP thread counts held fixed at 1 (the property excludes
                'one machine, one library build']
 REQUIRED = ['four_processes', 'hashseed_0', 'hashseed_1', 'hashseed_123', 'hashseed_random', 'reversed_order',
             'in_process_repeat', 'tmp_seed_raising_body', 'cached_gaussian_prior_state', 'demo', 'direct_gmm_seed0',
-            'gmm_fitted', 'same_data_other_prms_before']
+            'gmm_fitted', 'same_data_other_prms_before', 'global_route_with_history']
 SIZES = {'quick': dict(groups=8, per=9), 'thorough': dict(groups=40, per=16)}
 HASHSEEDS = ['0', '1', '123', 'random']
 
@@ -43,6 +43,19 @@ def SHARD_ENV(j, shard):
 
 def case_of(seed, g, k):
     idx = g * 1000 + k
+    if k % 9 == 5:
+        case = pipeline.materialise({'fam': 'tiecut', 's': seed, 'p': NUM, 'i': idx, 'k': {'order': 'shuf'}})
+        names = ['C0', 'C1', 'C2']
+        ren = {n: m for n, m in zip(names, [['zeta', 'Alpha', 'm-2'], ['b', 'a', 'c'], ['10', '9', '11']][k % 3])}
+        case['scene']['rows'] = [[ren[r[0]], r[1], r[2], r[3]] for r in case['scene']['rows']]
+        case['scene']['names'] = [ren[n] for n in names]
+        return case
+    if k % 9 == 7:
+        # parameters set through the global dictionary (no per-call prms): non-empty exclusion list
+        case = pipeline.materialise({'fam': 'chain', 's': seed, 'p': NUM, 'i': idx, 'k': {'nce': 3, 'lookback': 100, 'bins': 0}})
+        case['prm'] = {'call': {}, 'glob': {'EXCLUDE_FOR_BASE_HEIGHT_CALC': ['b', 'c'], 'BASE_LVL_HEIGHT_PERC': 20}}
+        case['global_route'] = True
+        return case
     if k % 4 == 3:
         desc = {'fam': 'quantised', 's': seed, 'p': NUM, 'i': idx, 'k': {'nce': 1 + k % 2, 'lookback': 100}}
     elif k % 3 == 0:
@@ -139,6 +152,24 @@ def check_digest(desc):
             if set_prior(rng, r):
                 tags.add('cached_gaussian_prior_state')
             df = scenes.frame(case['scene'])
+            if r == 2 and case.get('global_route'):
+                # history under the SAME global parameters: a chunk in which the excluded instruments do not report
+                pre = scenes.frame(scenes.close_chain_scene(scenes.rng_for(seed, NUM, g * 1000 + k, 3), nl=3, nce=1))
+                try:
+                    with warnings.catch_warnings():
+                        warnings.simplefilter('ignore')
+                        with obs.installed(case['prm']):
+                            import ampycloud as _a
+                            _a.run(pre)
+                            ch = bracket(lambda: _a.run(df), viol, 'run()', case=[g, k])
+                            o = obs.observe(ch)
+                    digests['%d:%d' % (g, k)] = obs.ohash({kk: (list(o['msgs'].values()) if kk == 'msgs' else vv) for kk, vv in o.items()})
+                    tags.add('global_route_with_history')
+                    evals += 1
+                    continue
+                except Exception as e:      # noqa
+                    digests['%d:%d' % (g, k)] = 'EXC:' + type(e).__name__
+                    continue
             if r == 2:
                 # "what was processed before": the very same hits with other parameter values (a memo keyed
                 # on the data alone would now serve stale results)
